@@ -434,6 +434,7 @@ def stream_api(ctx, pq, w, root, enums, structs, specs_names):
             cmds.append(("c_to_bytes", cap, T.pv(x)))
             cmds.append(("c_from_buffer", b))
             cmds.append(("idl_dec", tr[1], 0, 0, 1, b))
+            cmds.append(("c_typed_ok", tr[1], T.pv(x)))
     outs = iter(pq.batch(cmds))
     for tr, r in zip(trees, impl):
         st = tree_stats(tr, {})
@@ -449,7 +450,8 @@ def stream_api(ctx, pq, w, root, enums, structs, specs_names):
             ctx.fail({"component": "to_bytes", "kind": "crash-or-exception", "stream": "api"}, case, "worker: %r" % (r[:3],))
             continue
         b, x, y, eq, cap = r[1]
-        m_w, m_r, m_idl = next(outs), next(outs), next(outs)
+        m_w, m_r, m_idl, m_ty = next(outs), next(outs), next(outs), next(outs)
+        ctx.correspondence("typed_ok pinned (hypothesis of C10_typed_conformance) holds for the object from_fields built", case, m_ty, 1)
         ctx.correspondence("to_bytes(API-built) ~ impl model c_to_bytes", case, canon_out(m_w), ["ok", "#" + b.hex()])
         ctx.correspondence("to_bytes(API-built) ~ spec encoding thrift_enc of the IDL-typed tree (byte-exact conformance)", case,
                            canon_out(enc), ["ok", "#" + b.hex()])
